@@ -33,6 +33,8 @@ impl<'a> TcpListenerAccept<'a> {
             self.io_data.io_flag.store(0, Ordering::Relaxed);
 
             match self.socket.accept() {
+                #[cfg(may_verif)]
+                ref r if crate::verif::sys(&self.io_data.io_flag, "sys.accept", r) => unreachable!(),
                 Ok((s, a)) => {
                     s.set_nonblocking(true)?;
                     return add_socket(&s).map(|io| (TcpStream::from_stream(s, io), a));
